@@ -78,6 +78,13 @@ impl PlaybackStateManager {
 		self.state = State::Stopped;
 	}
 
+	/// Used by tracks, which (unlike sounds) never stop: if a track was
+	/// waiting to resume at a clock time and the clock is gone, the track
+	/// stays paused and can be resumed again later.
+	pub fn mark_as_paused(&mut self) {
+		self.state = State::Paused;
+	}
+
 	pub fn update(&mut self, dt: f64, info: &Info) -> ChangedPlaybackState {
 		let finished = self.volume_fade.update(dt, info);
 		match &mut self.state {
